@@ -21,6 +21,7 @@ class Obligation:
     meta: dict = field(default_factory=dict)
 
 
+DEBUG_LAST = None
 SAT_CACHE: dict = {}
 _KEEP: list = []      # keeps memoised terms alive so that their ids are not recycled
 
@@ -173,6 +174,8 @@ def explore(run_one: Callable[[Path], tuple[str, Any]], max_paths: int = 4000,
             results.append(PathResult("unsupported", None, p, str(e)))
         work.extend(p.pending)
         _KEEP.append(p.pc)
+        global DEBUG_LAST
+        DEBUG_LAST = p
     SAT_CACHE.clear()
     _KEEP.clear()
     return results
